@@ -135,81 +135,59 @@ func ruleOPT1(p *Program) *RuleResult {
 		if err != nil {
 			return r.anchorFail(err)
 		}
-		var optCall *ssa.Call
-		var guarded []ssa.Instruction
-		for _, b := range fn.Blocks {
-			for _, ins := range b.Instrs {
-				c, ok := ins.(*ssa.Call)
-				if !ok {
-					continue
-				}
-				if sc := c.Common().StaticCallee(); sc != nil {
-					nm := sc.Name()
-					if o := sc.Origin(); o != nil {
-						nm = o.Name()
-					}
-					if nm == "ApplyOptions" || nm == "PopulateConfig" {
-						optCall = c
-					}
-					if s.after != "" && nm == s.after {
-						guarded = append(guarded, c)
-					}
-				}
-				if c.Common().IsInvoke() && s.after != "" && c.Common().Method.Name() == s.after {
-					guarded = append(guarded, c)
-				}
-			}
-		}
+		// the function is analysed with the option application answering "an option
+		// failed": nothing may be evaluated or visited, and every return must carry an error
 		r.count("option_callers", 1)
 		key := short(fn) + "|options-error"
-		if optCall == nil {
+		applied := 0
+		an := newAnalyzer()
+		an.maxBlocks = 300
+		an.fnModel = func(sc *ssa.Function, args []aval) (aval, bool) {
+			nm := sc.Name()
+			if o := sc.Origin(); o != nil {
+				nm = o.Name()
+			}
+			if sc == fn || (nm != "ApplyOptions" && nm != "PopulateConfig") || !inRepoFn(sc) {
+				return aval{}, false
+			}
+			applied++
+			cfg := nonnil("cfg")
+			if nm == "ApplyOptions" && len(args) > 0 {
+				cfg = args[0]
+			}
+			return aval{k: kTuple, tup: []aval{cfg, nonnil("option-error")}}, true
+		}
+		res := an.analyze(fn, nil)
+		if applied == 0 {
 			r.bad(key, short(fn)+" does not apply its options through ApplyOptions/PopulateConfig", p.pos(fn.Pos()), "options are ignored")
 			continue
 		}
-		var errv ssa.Value
-		for _, ref := range *optCall.Referrers() {
-			if ex, ok := ref.(*ssa.Extract); ok && ex.Index == 1 {
-				errv = ex
-			}
-		}
-		if errv == nil {
-			r.bad(key, short(fn)+" discards the options error", p.instrPos(optCall), "a failing option is ignored")
-			continue
-		}
-		okAll := true
-		// every success-side use is dominated by err == nil
-		var at []ssa.Instruction
-		at = append(at, guarded...)
-		for _, b := range fn.Blocks {
-			if ret, ok := b.Instrs[len(b.Instrs)-1].(*ssa.Return); ok && len(ret.Results) >= 1 {
-				last := ret.Results[len(ret.Results)-1]
-				if c, ok := last.(*ssa.Const); ok && c.IsNil() && s.after == "" {
-					at = append(at, ret)
+		var reached []string
+		if s.after != "" {
+			for _, co := range res.calls {
+				switch {
+				case co.callee != nil && co.callee.Name() == s.after:
+					reached = append(reached, short(co.callee)+" at "+p.instrPos(co.site.(ssa.Instruction)))
+				case co.callee == nil && strings.HasPrefix(co.name, "invoke ") && strings.HasSuffix(co.name, "."+s.after):
+					reached = append(reached, co.name+" at "+p.instrPos(co.site.(ssa.Instruction)))
 				}
 			}
 		}
-		for _, ins := range at {
-			if !valueNilGuarded(fn, errv, ins) {
-				okAll = false
+		var okReturns []string
+		for _, ri := range res.rets {
+			last := ri.vals[len(ri.vals)-1]
+			if last.k != kNonNil {
+				okReturns = append(okReturns, fmt.Sprintf("return at %s with error %s", p.instrPos(ri.instr), last))
 			}
 		}
-		// PopulateConfig returns (config, err) unconditionally after the check: accept `return config, err`
-		if s.after == "" && len(at) == 0 {
-			okAll = true
-			for _, b := range fn.Blocks {
-				if ret, ok := b.Instrs[len(b.Instrs)-1].(*ssa.Return); ok {
-					if ret.Results[1] != errv {
-						if c, ok := ret.Results[1].(*ssa.Const); !ok || !c.IsNil() {
-							continue
-						}
-					}
-				}
-			}
-		}
-		if okAll && (len(at) > 0 || s.after == "") {
-			r.ok(key, short(fn)+": evaluation/visiting happens only after the options error was tested nil", p.instrPos(optCall), "dominance by the err == nil edge", true)
-		} else {
-			r.bad(key, short(fn)+": evaluation/visiting is reachable although an option failed", p.instrPos(optCall), "if any option fails the call must return that error without evaluating anything")
+		switch {
+		case res.nonconverged || len(res.rets) == 0:
+			r.undecided(key, short(fn)+": analysis produced no return", p.pos(fn.Pos()), "not decided")
+		case len(reached) == 0 && len(okReturns) == 0:
+			r.ok(key, short(fn)+": with a failing option nothing is evaluated/visited and every return carries an error", p.pos(fn.Pos()), "SCCP with the option application answering an error", true)
+		default:
+			r.bad(key, short(fn)+": evaluation/visiting is reachable although an option failed", p.pos(fn.Pos()),
+				"if any option fails the call must return that error without evaluating anything: "+strings.Join(append(reached, okReturns...), "; "))
 		}
 	}
 	r.floor("apply_instances", 2)
@@ -529,31 +507,10 @@ func ruleOPT6(p *Program) *RuleResult {
 		return r.anchorFail(fmt.Errorf("anchor: ToFunction has %d closures", len(tf.AnonFuncs)))
 	}
 	cl := tf.AnonFuncs[0]
-	var callI *ssa.Call
-	var evals []*ssa.Call
-	var assignable *ssa.Call
-	for _, b := range cl.Blocks {
-		for _, ins := range b.Instrs {
-			c, ok := ins.(*ssa.Call)
-			if !ok {
-				continue
-			}
-			if sc := c.Common().StaticCallee(); sc != nil && sc.RelString(nil) == "(reflect.Value).Call" {
-				callI = c
-			}
-			if c.Common().IsInvoke() && c.Common().Method.Name() == "Evaluate" {
-				evals = append(evals, c)
-			}
-			if c.Common().IsInvoke() && c.Common().Method.Name() == "AssignableTo" {
-				assignable = c
-			}
-		}
-	}
-	if callI == nil || len(evals) != 1 || assignable == nil {
-		r.undecided("ToFunction$1|shape", "rv.Call / argument Evaluate / AssignableTo not found", p.pos(cl.Pos()), "unsupported shape")
-		return r
-	}
-	// SCCP: arity mismatch → ErrWrongArity before anything; argument forms
+	// SCCP: arity mismatch → ErrWrongArity before anything; argument forms. The
+	// argument evaluation (Expression.Evaluate on the tagged argument), the
+	// assignability test and the reflected call are answered by models, wherever
+	// in the closure or its helpers they are made.
 	type tc struct {
 		name     string
 		nargs    int
@@ -564,6 +521,7 @@ func ruleOPT6(p *Program) *RuleResult {
 		wantErr  string
 	}
 	item := nonnil("ARG")
+	shapeOK := false
 	for _, c := range []tc{
 		{"arity mismatch", 1, 2, okTuple(coll(item)), cBool(true), false, "impl.ErrWrongArity"},
 		{"argument evaluation fails", 1, 1, errTuple(), cBool(true), false, "operand-error"},
@@ -576,24 +534,65 @@ func ruleOPT6(p *Program) *RuleResult {
 		r.count("hypotheses", 1)
 		an := newAnalyzer()
 		an.maxBlocks = 200
-		an.pin[evals[0]] = c.argRes
-		an.pin[assignable] = c.assign
-		// free variables: rv (reflect.Value), arity
+		evaluated, assignTests, called := 0, 0, false
+		an.callModel = func(cc *ssa.CallCommon, args []aval) (aval, bool) {
+			if !cc.IsInvoke() {
+				return aval{}, false
+			}
+			switch cc.Method.Name() {
+			case "Evaluate":
+				if len(args) > 0 && operandTagOf(args[0]) != "" {
+					evaluated++
+					return c.argRes, true
+				}
+			case "AssignableTo":
+				assignTests++
+				return c.assign, true
+			}
+			return aval{}, false
+		}
+		an.fnModel = func(sc *ssa.Function, args []aval) (aval, bool) {
+			if sc.RelString(nil) == "(reflect.Value).Call" {
+				called = true
+				return aval{k: kSlice, n: 2, elems: []aval{top, top}}, true
+			}
+			return aval{}, false
+		}
+		// free variables: the arity (a value or a cell) and, where captured, the
+		// parameter type table of matching length; everything else unknown
 		free := make([]aval, len(cl.FreeVars))
 		for i, fv := range cl.FreeVars {
 			free[i] = top
-			if fv.Name() == "arity" {
-				free[i] = cInt(c.arity)
-				// captured by reference? then it is a pointer to a cell
-				if _, isPtr := fv.Type().(*types.Pointer); isPtr {
-					v := cInt(c.arity)
-					free[i] = aval{k: kNonNil, ptrOf: &v}
+			t := fv.Type()
+			isPtr := false
+			if pt, ok := t.(*types.Pointer); ok {
+				t, isPtr = pt.Elem(), true
+			}
+			var v aval
+			switch u := t.Underlying().(type) {
+			case *types.Basic:
+				if u.Info()&types.IsInteger != 0 {
+					v = cInt(c.arity)
+				}
+			case *types.Slice:
+				if typeShort(u.Elem()) == "reflect.Type" {
+					v = sliceLen(int(c.arity))
 				}
 			}
+			if v.k == kBot {
+				continue
+			}
+			if isPtr {
+				free[i] = aval{k: kNonNil, ptrOf: &v}
+			} else {
+				free[i] = v
+			}
 		}
-		res := an.run(cl, []aval{nonnil("ctx"), sliceLen(1), sliceLen(c.nargs)}, free, 0)
-		called := res.executable(callI)
-		// with an unknown loop trip count the call may stay executable; decide by the error returns
+		res := an.run(cl, []aval{nonnil("ctx"), sliceLen(1), argsValue(c.nargs)}, free, 0)
+		if evaluated > 0 || assignTests > 0 || called {
+			shapeOK = true
+		}
+		// decide by the error returns
 		var errs []string
 		for _, ri := range res.rets {
 			e := ri.vals[1]
@@ -626,10 +625,14 @@ func ruleOPT6(p *Program) *RuleResult {
 			}
 		}
 		if ok {
-			r.ok(key, desc, p.pos(cl.Pos()), "SCCP with the argument evaluation and the assignability test pinned", true)
+			r.ok(key, desc, p.pos(cl.Pos()), "SCCP with the argument evaluation and the assignability test answered by models", true)
 		} else {
 			r.bad(key, desc, p.pos(cl.Pos()), "the wrapper must reject a wrong argument count, a failing/empty/multi-item/ill-typed argument before calling the user function")
 		}
+	}
+	if !shapeOK {
+		r.undecided("ToFunction$1|shape", "rv.Call / argument Evaluate / AssignableTo not observed", p.pos(cl.Pos()), "unsupported shape")
+		return r
 	}
 	// the value handed to the function is the evaluated item itself, and slot 0 is the input collection
 	// (structural): reflect.ValueOf(input) is the first element of the argument slice
